@@ -164,6 +164,14 @@ func (ipcp *IPCPStateMachine) setState(newState IPCPState) {
 	oldState := ipcp.state
 	ipcp.state = newState
 
+	// The restart timer runs only while negotiating or terminating (RFC 1661 4.6:
+	// it is stopped when reaching Closed, Stopped or Opened); it keeps running
+	// across every other transition so that a silent peer is always timed out.
+	switch newState {
+	case IPCPStateInitial, IPCPStateStarting, IPCPStateClosed, IPCPStateStopped, IPCPStateOpened:
+		ipcp.stopTimer()
+	}
+
 	ipcp.logger.Debug("IPCP state change",
 		zap.String("from", oldState.String()),
 		zap.String("to", newState.String()),
@@ -486,8 +494,6 @@ func (ipcp *IPCPStateMachine) receiveConfigureAck(pkt *LCPPacket) error {
 		return nil
 	}
 
-	ipcp.stopTimer()
-
 	switch ipcp.state {
 	case IPCPStateClosed, IPCPStateStopped:
 		ipcp.sendTerminateAck(pkt.Identifier)
@@ -513,8 +519,6 @@ func (ipcp *IPCPStateMachine) receiveConfigureNak(pkt *LCPPacket) error {
 	if pkt.Identifier != ipcp.lastIdentifier {
 		return nil
 	}
-
-	ipcp.stopTimer()
 
 	// Process NAK options
 	opts, err := ParseLCPOptions(pkt.Data)
@@ -555,8 +559,6 @@ func (ipcp *IPCPStateMachine) receiveConfigureReject(pkt *LCPPacket) error {
 		return nil
 	}
 
-	ipcp.stopTimer()
-
 	// Process rejected options - stop sending them
 	opts, _ := ParseLCPOptions(pkt.Data)
 	for _, opt := range opts {
@@ -584,8 +586,6 @@ func (ipcp *IPCPStateMachine) receiveConfigureReject(pkt *LCPPacket) error {
 
 // receiveTerminateRequest handles incoming Terminate-Request
 func (ipcp *IPCPStateMachine) receiveTerminateRequest(pkt *LCPPacket) error {
-	ipcp.stopTimer()
-
 	switch ipcp.state {
 	case IPCPStateClosed, IPCPStateStopped, IPCPStateClosing, IPCPStateStopping:
 		ipcp.sendTerminateAck(pkt.Identifier)
@@ -594,6 +594,7 @@ func (ipcp *IPCPStateMachine) receiveTerminateRequest(pkt *LCPPacket) error {
 		ipcp.setState(IPCPStateStopped)
 	case IPCPStateOpened:
 		ipcp.zeroRestartCount()
+		ipcp.startTimer() // zrc must also set the timeout period (RFC 1661 4.4)
 		ipcp.sendTerminateAck(pkt.Identifier)
 		ipcp.setState(IPCPStateStopping)
 	}
@@ -603,8 +604,6 @@ func (ipcp *IPCPStateMachine) receiveTerminateRequest(pkt *LCPPacket) error {
 
 // receiveTerminateAck handles incoming Terminate-Ack
 func (ipcp *IPCPStateMachine) receiveTerminateAck(pkt *LCPPacket) error {
-	ipcp.stopTimer()
-
 	switch ipcp.state {
 	case IPCPStateClosing:
 		ipcp.setState(IPCPStateClosed)
